@@ -52,7 +52,7 @@ def run_case(ctx, idx, rng, tier):
                 feats.add("field")
     if len({c["basis"] for c in g.chans.values()}) >= 2:
         feats.add("two-bases")
-    done = check_hamiltonian(ctx, r.seq, case=r.prog)
+    done = check_hamiltonian(ctx, r.seq, case=r.prog, tour_rng=rng)
     if done and len(reg["ids"]) >= 2 and len(feats) >= 2:
         ctx.mark_nontrivial(("c05", idx))
     ctx.sample({k: (v if k != "ops" else v[:14]) for k, v in r.prog.items()})
